@@ -1,0 +1,108 @@
+"""
+Verification hooks. Everything in this module is inert unless the environment
+variable PASQAL_IO_EMULATORS_VERIF is set to "1".
+
+When enabled, `emit(ev, **fields)` appends one event to the in-process sink
+(`set_sink`) and/or to the NDJSON file named by PASQAL_IO_EMULATORS_VERIF_TRACE.
+Events carry a per-process sequence number; no wall-clock time is recorded.
+
+Two guard-only controls exist for the autosave machinery of emu-mps:
+  PASQAL_IO_EMULATORS_VERIF_AUTOSAVE=always      treat the autosave interval as elapsed
+  PASQAL_IO_EMULATORS_VERIF_CRASH_AFTER_SAVE=k   raise VerifCrash after the k-th completed save
+"""
+
+import json
+import os
+from typing import Any, Optional
+
+_GUARD = "PASQAL_IO_EMULATORS_VERIF"
+
+_seq = 0
+_saves = 0
+_sink: Optional[list] = None
+
+
+class VerifCrash(BaseException):
+    """Injected crash (guard-only). Derives from BaseException on purpose."""
+
+
+def enabled() -> bool:
+    return os.environ.get(_GUARD) == "1"
+
+
+def set_sink(sink: Optional[list]) -> None:
+    global _sink
+    _sink = sink
+
+
+def reset() -> None:
+    global _seq, _saves
+    _seq = 0
+    _saves = 0
+
+
+def _plain(x: Any) -> Any:
+    # tensors / numpy / enums / paths -> JSON-able values
+    if x is None or isinstance(x, (bool, int, str)):
+        return x
+    if isinstance(x, float):
+        return x
+    if isinstance(x, complex):
+        return [x.real, x.imag]
+    if isinstance(x, (list, tuple)):
+        return [_plain(y) for y in x]
+    if isinstance(x, dict):
+        return {str(k): _plain(v) for k, v in x.items()}
+    if hasattr(x, "detach") and hasattr(x, "tolist"):
+        t = x.detach()
+        if t.is_complex():
+            if bool((t.imag == 0).all()):
+                return t.real.tolist()
+            return _plain(t.resolve_conj().cpu().numpy().tolist())
+        return t.tolist()
+    if hasattr(x, "tolist"):
+        return _plain(x.tolist())
+    if hasattr(x, "name") and hasattr(x, "value"):
+        return x.name
+    return str(x)
+
+
+def emit(ev: str, **fields: Any) -> None:
+    if not enabled():
+        return
+    global _seq
+    _seq += 1
+    rec = {"seq": _seq, "ev": ev}
+    for k, v in fields.items():
+        rec[k] = _plain(v)
+    if _sink is not None:
+        _sink.append(rec)
+    path = os.environ.get(_GUARD + "_TRACE")
+    if path:
+        with open(path, "a") as f:
+            f.write(json.dumps(rec) + "\n")
+
+
+def force_autosave() -> bool:
+    return enabled() and os.environ.get(_GUARD + "_AUTOSAVE") == "always"
+
+
+def after_save() -> None:
+    """Called after every completed autosave."""
+    if not enabled():
+        return
+    global _saves
+    _saves += 1
+    k = os.environ.get(_GUARD + "_CRASH_AFTER_SAVE")
+    if k and _saves == int(k):
+        raise VerifCrash(f"injected crash after save {_saves}")
+
+
+def result_times(results: Any) -> dict:
+    """tag -> number of stored times (cheap projection of a pulser Results)."""
+    try:
+        return {
+            tag: len(results._times[uid]) for tag, uid in results._tagmap.items()
+        }
+    except Exception:  # pragma: no cover - projection only
+        return {}
